@@ -310,6 +310,10 @@ Definition gc_unregister (k : nat) (s : state) : option state :=
   | Some c => if co_reg c then Some (set_cos s (put k (set_reg c false) (cos s))) else None
   end.
 
+(* coroutine.destroy.  Repaired code (DESTROY_UNREGISTERS_FIRST = false): minicoro.destroy first and,
+   in a GC build, gc:unregister(co) only when it succeeded (the assertion of GC:unregister then needs
+   the coroutine to be registered).  The old order (unregister first) is kept under the scraped flag so
+   that a revert of the repair changes the model and breaks the proofs that need the repaired order. *)
 Definition co_destroy (k : nat) (s : state) : cres * state :=
   if gcon s && DESTROY_UNREGISTERS_FIRST then
     match gc_unregister k s with
@@ -317,8 +321,13 @@ Definition co_destroy (k : nat) (s : state) : cres * state :=
     | Some s1 => let '(e, s2) := mco_destroy k s1 in (cres_of e, s2)
     end
   else
-    (* no GC, or unregister only after minicoro.destroy succeeded (the object is gone then) *)
-    let '(e, s2) := mco_destroy k s in (cres_of e, s2).
+    let '(e, s2) := mco_destroy k s in
+    if is_success e && gcon s then
+      match get k (cos s) with
+      | Some c => if co_reg c then (COk, s2) else (CPanic PANIC_UNREGISTER, s2)
+      | None => (COk, s2)
+      end
+    else (cres_of e, s2).
 
 Definition co_status (k : nat) (s : state) : string :=
   match get k (cos s) with
